@@ -15,6 +15,7 @@ from pathlib import Path
 from core import Driver, np, show_rat, show_nats, row_hex, exp_table_line
 from checklib import SuiteResult
 
+import bblean
 import bblean.multiround as mr
 
 CRITS = ["radius", "diameter", "tolerance-diameter", "tolerance-radius", "tolerance-legacy", "never-merge"]
@@ -232,8 +233,15 @@ def suite_mr(tier: str, seed: int, mult: int, focus: str = "C05") -> SuiteResult
            "packed": 0, "unpacked": 0, "schedules": 0, "real_pools": 0, "shuffled_glob": 0}
     seen = set()
     try:
+        if focus == "C06":
+            f0 = hash_seed_stream(rng, work, tier, cnt)
+            if f0 is not None:
+                res.failures.append(f0)
+            res.evaluations += cnt.get("hash_seed_runs", 0)
         n_cases = (40 if tier == "quick" else 500) * mult
         for k in range(n_cases):
+            if res.failures:
+                break
             case = gen_case(rng)
             N = sum(len(f) for f in case["files"])
             d.cmd(exp_table_line(N + 2))
@@ -284,6 +292,14 @@ def suite_mr(tier: str, seed: int, mult: int, focus: str = "C05") -> SuiteResult
             # C06: other schedules, real pools, shuffled listings must give the same finals
             if fail is None and ians == "ok" and focus in ("C06", "C05"):
                 base = finals(out)
+                if focus == "C06":
+                    # process history must not matter either: another estimator of the same configuration whose tolerance
+                    # is changed in place (the public setter) before the other executions are made
+                    for crit_ in {case["init"], case["mid"], case["final"] or case["mid"]}:
+                        other = bblean.BitBirch(merge_criterion=crit_, tolerance=case["tol"])
+                        if other.tolerance is not None:
+                            other.tolerance = case["tol"] + 0.123
+                    cnt["interfering_estimators"] = cnt.get("interfering_estimators", 0) + 1
                 variants = []
                 for _ in range(2 if tier == "quick" else 4):
                     variants.append(("fake", None))
@@ -327,6 +343,27 @@ def suite_mr(tier: str, seed: int, mult: int, focus: str = "C05") -> SuiteResult
                         break
                     shutil.rmtree(o2, ignore_errors=True)
                     del written
+            # C05 holds "for any combination of workflow options": also when the output directory was used before
+            # (an earlier run with another file layout that kept its round files) and this run keeps its own
+            if fail is None and ians == "ok" and focus == "C05" and k % 4 == 0:
+                shape = (k // 4) % 2
+                earlier = dict(case, cleanup=False, mode="none",
+                               files=([f[:2] for f in (case["files"] * 11)[:11]] if shape == 0 else
+                                      [[list(case["files"][0][0])] * 300] + [list(f) for f in case["files"][1:]]))
+                ein = work / f"in{k}-earlier"
+                ein.mkdir()
+                o3 = work / f"out{k}-used"
+                o3.mkdir()
+                run_impl(earlier, write_inputs(earlier, ein), o3, procs=1)
+                a3 = run_impl(case, inputs, o3, procs=1)
+                cnt["used_directory"] = cnt.get("used_directory", 0) + 1
+                if a3 != "ok" or finals(o3) != finals(out):
+                    fail = {"signature": "C05:result-depends-on-earlier-contents-of-the-output-directory",
+                            "what": f"run in a directory used by an earlier run ({a3}) differs from the fresh-directory run"}
+                else:
+                    fail = oracle_c05(case, o3)
+                shutil.rmtree(o3, ignore_errors=True)
+                shutil.rmtree(ein, ignore_errors=True)
             if fail is not None:
                 res.failures.append({**fail, "case": {"case": case, "orders": ctx.used}})
                 break
@@ -337,6 +374,66 @@ def suite_mr(tier: str, seed: int, mult: int, focus: str = "C05") -> SuiteResult
         shutil.rmtree(work, ignore_errors=True)
     res.counters = cnt
     return res
+
+
+def hash_seed_stream(rng: random.Random, work: Path, tier: str, cnt: dict):
+    """Workers are separate interpreters with their own string-hash seed.  Input files holding two clusters of more than
+    255 members (uint16 buffers) next to small ones (uint8 buffers) are clustered serially in this process and by
+    `spawn` pools whose workers' PYTHONHASHSEED is pinned to different values: all must agree."""
+    import multiprocessing as mp
+    import os
+    # a fixed data set on which the re-insertion order of the uint16 / uint08 groups is known to matter
+    nrng = np.random.default_rng(0)
+    F = 256
+    d = work / "hs-in"
+    d.mkdir()
+
+    def noisy(center, lo, hi):
+        fp = center.copy()
+        fp[nrng.choice(F, size=nrng.integers(lo, hi), replace=False)] ^= 1
+        return fp
+    files = []
+    for i in range(3):
+        ca = (nrng.random(F) < 0.3).astype(np.uint8)
+        cb = noisy(ca, 50, 51)
+        rows = [noisy(ca, 0, 20) for _ in range(400)] + [noisy(cb, 0, 6) for _ in range(300)]
+        for _ in range(3):
+            cc = (nrng.random(F) < 0.3).astype(np.uint8)
+            rows += [noisy(cc, 0, 8) for _ in range(20)]
+        arr = np.array(rows, dtype=np.uint8)[nrng.permutation(len(rows))]
+        pth = d / f"fps.{i:03d}.npy"
+        np.save(pth, np.packbits(arr, axis=1))
+        files.append(pth)
+
+    def run(out: Path, **kw):
+        out.mkdir()
+        try:
+            mr.run_multiround_bitbirch(files, out, bin_size=2, threshold=0.5, **kw)
+        except Exception as e:  # noqa: BLE001
+            return f"err:{type(e).__name__}"
+        return finals(out)
+    ref = run(work / "hs-serial", num_initial_processes=1)
+    cnt["hash_seed_runs"] = 1
+    saved = os.environ.get("PYTHONHASHSEED")
+    fail = None
+    try:
+        for i, hs in enumerate(("1", "2") if tier == "quick" else ("1", "2", "3", "5")):
+            os.environ["PYTHONHASHSEED"] = hs
+            got = run(work / f"hs-spawn-{hs}", num_initial_processes=2 + i % 2, mp_context=mp.get_context("spawn"))
+            cnt["hash_seed_runs"] += 1
+            if got != ref:
+                fail = {"signature": "C06:result-depends-on-the-hash-seed-of-the-worker-processes",
+                        "what": f"spawn workers with PYTHONHASHSEED={hs} give final files different from the serial execution",
+                        "case": {"files": "3 files x (400 + 300 + 3x20 rows), 256 bits", "hash_seed": hs}}
+                break
+    finally:
+        if saved is None:
+            os.environ.pop("PYTHONHASHSEED", None)
+        else:
+            os.environ["PYTHONHASHSEED"] = saved
+    for q in work.glob("hs-*"):
+        shutil.rmtree(q, ignore_errors=True)
+    return fail
 
 
 def suite_c05(tier, seed, mult):
@@ -450,6 +547,25 @@ def suite_c14(tier: str, seed: int, mult: int) -> SuiteResult:
     d = Driver()
     cnt = {"configs": 0, "crash_points": 0, "partial_writes": 0, "reruns": 0, "stale_dirs": 0, "effects_total": 0, "crashes_after_publication": 0}
     try:
+        # a schedule whose round index needs two digits (9-10 midsection rounds), cleanup on: nothing of it may remain
+        long_case = gen_case(rng, small=True)
+        long_case.update(mids=rng.choice([9, 10]), cleanup=True, mode="none", split=False)
+        lin = work / "inlong"
+        lin.mkdir()
+        lout = work / "outlong"
+        lout.mkdir()
+        la = run_impl(long_case, write_inputs(long_case, lin), lout, procs=1)
+        res.evaluations += 1
+        cnt["two_digit_rounds"] = 1
+        if la == "ok" and list(lout.glob("round-*")):
+            res.failures.append({"signature": "C14:round-files-left-after-successful-run-with-cleanup",
+                                 "what": str(sorted(p.name for p in lout.glob('round-*'))[:5]), "case": {"case": long_case}})
+        d.cmd(exp_table_line(sum(len(f) for f in long_case["files"]) + 2))
+        lm = d.cmd(model_line(long_case))
+        liv = ("ok " + show_dir(lout)) if la == "ok" else la
+        if lm != liv and res.disagreement is None:
+            res.disagreement = {"what": "multiround run with 9-10 midsection rounds", "case": long_case, "model": lm[:2000], "impl": liv[:2000]}
+        shutil.rmtree(lout, ignore_errors=True)
         n_cfg = (4 if tier == "quick" else 25) * mult
         for ci in range(n_cfg):
             case = gen_case(rng, small=True)
@@ -478,7 +594,17 @@ def suite_c14(tier: str, seed: int, mult: int) -> SuiteResult:
                 shutil.rmtree(o, ignore_errors=True)
             cnt["configs"] += 1
             # (1) stale directory: a completed earlier run with MORE files and cleanup off
-            more = dict(case, cleanup=False, files=case["files"] + [case["files"][0]] * 2)
+            # ... in three shapes: a few more files (same label width); eleven tiny files (labels 00..10: names the
+            # new run never overwrites); a first file of 300 identical rows (a uint16 buffer file next to the uint08 ones)
+            shape = ci % 3
+            if shape == 0:
+                more = dict(case, cleanup=False, files=case["files"] + [case["files"][0]] * 2)
+            elif shape == 1:
+                more = dict(case, cleanup=False, mode="none", files=[f[:2] for f in (case["files"] * 11)[:11]])
+            else:
+                more = dict(case, cleanup=False, mode="none", thr=0.3, init="diameter",
+                            files=[[list(case["files"][0][0])] * 300] + [list(f) for f in case["files"][1:]])
+            cnt[f"stale_shape_{shape}"] = cnt.get(f"stale_shape_{shape}", 0) + 1
             indir2 = work / f"inmore{ci}"
             indir2.mkdir()
             inputs_more = write_inputs(more, indir2)
